@@ -20,7 +20,9 @@ SCRATCH = os.path.join(os.path.dirname(BUILD_ROOT.rstrip("/")), "scratch-c04") i
 
 
 def answer(line, mode):
-    return line if mode == "echo" else b"<" + line.upper() + b">"
+    if mode == "echo":
+        return line
+    return b"<" + line.upper() + b">" + (b"\r" if mode.endswith("+cr") else b"")
 
 
 def key_of(line, kspec, sep):
@@ -126,9 +128,14 @@ def main(argv):
             if sep != b"\t":
                 args += ["-t", sep.decode()]
         jobs.append((args, kspec, sep, lines, mode, code))
-    # a few CR cases (open known finding: CR before the newline is stripped by both readers)
+    # carriage returns in front of the newline, in the input and in the child's answers (finding F11, fixed)
     jobs.append(([], None, None, [b"a\r", b"b"], "echo", 0))
     jobs.append(([], None, None, [b"a\r", b"a"], "eager", 0))
+    jobs.append(([], None, None, [b"a\r", b"a", b"\r", b"", b"a\r"], "block:7+cr", 0))
+    jobs.append(([], None, None, [b"x", b"y\r\r", b"x"], "eager+cr", 0))
+    for _ in range(6):
+        jobs.append(([], None, None, [c.rng.choice([b"p", b"p\r", b"\r", b"q\rq", b""]) for _ in range(c.rng.randrange(1, 30))],
+                     c.rng.choice(["echo", "eager+cr", "readall+cr", "stdio"]), 0))
 
     def do(job):
         args, kspec, sep, lines, mode, code = job
@@ -173,13 +180,13 @@ def main(argv):
         if status != code:
             c.violation("status: cache exited with %s, child exited with %d" % (status, code), desc)
         # ---- model: same key ids, same lines
-        if drv is not None and len(lines) <= 3000 and not has_cr:
+        if drv is not None and len(lines) <= 3000:
             ids = {}
             items = []
             for l, k in zip(lines, keys):
                 ids.setdefault(k, len(ids))
                 items.append("%d:%s" % (ids[k], hexs(l)))
-            mlines.append("R %s %s" % ("e" if mode == "echo" else "u", " ".join(items)))
+            mlines.append("R %s %s" % ("e" if mode == "echo" else ("c" if mode.endswith("+cr") else "u"), " ".join(items)))
             mjobs.append((job, out, log_data, trace))
     if drv is not None and mlines:
         rc, mout, merr = run_lines(drv, mlines, timeout=600)
